@@ -17,7 +17,9 @@
 (*           + GetGrain OUTSIDE the single-flight), tryRemoteGrainActivation (remote  *)
 (*           owner: RemoteActivateGrain -> recreateGrain there; failure: RemoveGrain  *)
 (*           of the "stale" entry and local activation), activateGrainLocally (claim  *)
-(*           only when the owner snapshot was empty; owner mismatch swallowed).       *)
+(*           only when the owner snapshot was empty; owner mismatch swallowed).  No   *)
+(*           registry operation lies between that owner lookup and the single-flight, *)
+(*           so the snapshot is used in the step that took it.                        *)
 (*   "pass"  the passivation manager deactivating the grain on node Org:              *)
 (*           passivationTry -> deactivate = OnDeactivate, grains.Delete(key),         *)
 (*           RemoveGrain, activated := false.                                         *)
@@ -36,9 +38,6 @@
 (*                        the registry record, so a re-activation on the same node    *)
 (*                        (owner = local, no claim) gets its record removed.  Repair: *)
 (*                        RemoveGrain first, then grains.Delete (FIXED in /repo).     *)
-(*   "StaleOwnerSnapshot" activateGrainLocally trusts an owner snapshot taken outside *)
-(*                        the single-flight.  Repair: ownership is (re)established    *)
-(*                        inside the single-flight (ensureGrainOwnership).            *)
 (*   "ForeignRemove"      tryRemoteGrainActivation removes the owner's record when    *)
 (*                        the remote activation request fails for ANY reason (e.g.    *)
 (*                        OnActivate failed over there).  Repair: return the error.   *)
@@ -150,8 +149,7 @@ EnterLoc(s, t) ==
   IF s.flight[n] # NoThread THEN Block([s EXCEPT !.th[t].cur = n], t, n, "loc")
   ELSE LET s1 == WithProc([s EXCEPT !.flight[n] = t, !.th[t].cur = n, !.th[t].prog = "loc", !.th[t].claimed = FALSE,
                                     !.th[t].actHere = TRUE], t, n)
-       IN IF ~Has("StaleOwnerSnapshot") THEN [s1 EXCEPT !.th[t].pc = "oE"]      \* repaired: re-resolve inside the flight
-          ELSE IF s.th[t].own = NoNode THEN [s1 EXCEPT !.th[t].pc = "cNX", !.th[t].tries = 0]
+       IN IF s.th[t].own = NoNode THEN [s1 EXCEPT !.th[t].pc = "cNX", !.th[t].tries = 0]
           ELSE AfterClaim(s1, t)
 
 \* recreateGrain on node m (inbound RemoteActivateGrain)
@@ -188,9 +186,8 @@ IdentExists(t) ==
 
 IdentGet(t) ==
   /\ At(t, "iG")
-  /\ CommitD(IF reg = NoNode \/ reg = Org[t] THEN EnterLoc([S0 EXCEPT !.th[t].own = reg], t)
-             ELSE EnterRec([S0 EXCEPT !.th[t].own = reg], t, reg), t, "G",
-             IF reg = Org[t] /\ Has("StaleOwnerSnapshot") THEN "StaleOwnerSnapshot" ELSE "-")
+  /\ Commit(IF reg = NoNode \/ reg = Org[t] THEN EnterLoc([S0 EXCEPT !.th[t].own = reg], t)
+            ELSE EnterRec([S0 EXCEPT !.th[t].own = reg], t, reg), t, "G")
 
 \* tryRemoteGrainActivation: remote activation failed -> remove the "stale" entry, activate locally
 IdentRemove(t) ==
